@@ -97,7 +97,22 @@ func (d DID) PubKey() (crypto.PubKey, error) {
 	}
 
 	codeSize := varint.UvarintSize(uint64(d.code))
-	return unmarshaler([]byte(d.bytes)[codeSize:])
+	pubKey, err := unmarshaler([]byte(d.bytes)[codeSize:])
+	if err != nil {
+		return nil, err
+	}
+
+	// One principal, one DID: only accept the canonical encoding of the key
+	// (for example, reject an uncompressed secp256k1 point).
+	canonical, err := FromPubKey(pubKey)
+	if err != nil {
+		return nil, err
+	}
+	if canonical != d {
+		return nil, fmt.Errorf("non-canonical did:key encoding")
+	}
+
+	return pubKey, nil
 }
 
 // String formats the decentralized identity document (DID) as a string.
